@@ -89,11 +89,17 @@ func c14Model(r *rand.Rand) *openfgav1.AuthorizationModel {
 			}
 			td.Metadata.Module = hostileModules[r.Intn(len(hostileModules))]
 			td.Metadata.SourceInfo = &openfgav1.SourceInfo{File: hostileFiles[r.Intn(len(hostileFiles))]}
+			if r.Intn(6) == 0 {
+				td.Metadata.SourceInfo = nil // what TransformModularDSLToProto returns: a module but no source info
+			}
 			for _, md := range td.Metadata.Relations {
 				md.Module, md.SourceInfo = "", nil
 				if r.Intn(2) == 0 {
 					md.Module = hostileModules[r.Intn(len(hostileModules))]
 					md.SourceInfo = &openfgav1.SourceInfo{File: hostileFiles[r.Intn(len(hostileFiles))]}
+					if r.Intn(6) == 0 {
+						md.SourceInfo = nil
+					}
 				}
 			}
 		}
@@ -101,6 +107,9 @@ func c14Model(r *rand.Rand) *openfgav1.AuthorizationModel {
 			cd.Metadata = nil
 			if r.Intn(3) > 0 {
 				cd.Metadata = &openfgav1.ConditionMetadata{Module: hostileModules[r.Intn(len(hostileModules))], SourceInfo: &openfgav1.SourceInfo{File: hostileFiles[r.Intn(len(hostileFiles))]}}
+				if r.Intn(6) == 0 {
+					cd.Metadata.SourceInfo = nil
+				}
 			}
 		}
 	} else {
@@ -217,6 +226,22 @@ func checkCanonical(run *core.Run, m *openfgav1.AuthorizationModel, r *rand.Rand
 		run.Eval(1)
 		if e != nil || p != plain {
 			run.Violation("output-differs-between-calls", c, plain, p+fmt.Sprint(e))
+			return
+		}
+	}
+	// 1b. a failing call in between must leave nothing behind (buffers, caches): the poison model renders some
+	// conditions and then fails on a later one
+	if r.Intn(4) == 0 {
+		for _, poison := range poisonModels() {
+			if _, perr := transformer.TransformJSONProtoToDSL(poison, transformer.WithIncludeSourceInformation(r.Intn(2) == 0)); perr == nil {
+				run.Count("poison_models_unexpectedly_rendered", 1)
+			}
+		}
+		p, e := transformer.TransformJSONProtoToDSL(clone())
+		run.Eval(3)
+		run.Count("renders_after_a_failing_call", 1)
+		if e != nil || p != plain {
+			run.Violation("output-differs-after-a-failing-call", c, plain, p+fmt.Sprint(e))
 			return
 		}
 	}
@@ -390,6 +415,22 @@ func checkCanonical(run *core.Run, m *openfgav1.AuthorizationModel, r *rand.Rand
 	}
 	if len(m.GetTypeDefinitions()) > 0 {
 		run.NonTrivial(modelKey(m))
+	}
+}
+
+// poisonModels: models on which the printer fails late (after having rendered something).
+func poisonModels() []*openfgav1.AuthorizationModel {
+	intP := map[string]*openfgav1.ConditionParamTypeRef{"x": {TypeName: openfgav1.ConditionParamTypeRef_TYPE_NAME_INT}}
+	return []*openfgav1.AuthorizationModel{
+		{SchemaVersion: "1.1", TypeDefinitions: []*openfgav1.TypeDefinition{{Type: "leftover_type"}}, Conditions: map[string]*openfgav1.Condition{
+			"aaa_leftover": {Name: "aaa_leftover", Expression: "x < 1", Parameters: intP},
+			"zzz_bad":      {Name: "other_name", Expression: "x < 1", Parameters: intP}}},
+		{SchemaVersion: "1.1", Conditions: map[string]*openfgav1.Condition{
+			"aaa_leftover2": {Name: "aaa_leftover2", Expression: "x < 2", Parameters: intP},
+			"zzz_bad":       {Name: "zzz_bad", Expression: "x", Parameters: map[string]*openfgav1.ConditionParamTypeRef{"l": {TypeName: openfgav1.ConditionParamTypeRef_TYPE_NAME_LIST}}}}},
+		{SchemaVersion: "1.1", TypeDefinitions: []*openfgav1.TypeDefinition{{Type: "aaa_leftover_type", Relations: map[string]*openfgav1.Userset{"ok": gen.Computed("x")}},
+			{Type: "zzz", Relations: map[string]*openfgav1.Userset{"aaa": gen.Computed("x"), "bad": gen.Union(gen.This(), gen.This())},
+				Metadata: &openfgav1.Metadata{Relations: map[string]*openfgav1.RelationMetadata{"bad": {DirectlyRelatedUserTypes: []*openfgav1.RelationReference{{Type: "user"}}}}}}}},
 	}
 }
 
